@@ -117,7 +117,46 @@ def run_sim(sc):
     tr = (TlsTransport if sc["tls"] else SimTransport)(sc["tls"], sc["arrivals"], clock)
     limit = sc["arrivals"][-1][0] + 3 * 60 * 1024
 
+    class BusyLock(object):
+        """the session's write lock as seen while another thread of the application is sending: a blocking acquire gets the
+        lock promptly (the other thread finishes its sendall), but a non-blocking probe made at the instant a burst is
+        being handled finds it taken; the next window opens when time has moved on by more than a poll period"""
+
+        def __init__(self):
+            self.window = None
+            self.held = False
+
+        def _busy(self):
+            t = clock.ticks
+            if self.window is None or t > self.window + 10 * 60 * 1024:
+                self.window = t
+            return t == self.window
+
+        def acquire(self, blocking=True, timeout=-1):
+            if not blocking and self._busy():
+                return False
+            self.held = True
+            return True
+
+        def release(self):
+            self.held = False
+
+        def locked(self):
+            return self.held or self._busy()
+
+        def __enter__(self):
+            self.acquire()
+            return self
+
+        def __exit__(self, *a):
+            self.release()
+
     class Sess(S.WebsocketSession):
+        def __init__(self, *a, **kw):
+            S.WebsocketSession.__init__(self, *a, **kw)
+            if sc.get("busy_lock"):
+                self._lock = BusyLock()
+
         def _connect(self):
             return tr, None
     Sess._selector_cls = make_selector(tr, clock, limit)
@@ -175,7 +214,7 @@ def gen(rnd, tls):
             arrivals.append((t, c))
         for op, p in frames:
             expected.append((t, [{1: 6, 2: 7, 9: 8}[op], p]))
-    return dict(tls=tls, arrivals=arrivals, _expected=expected)
+    return dict(tls=tls, arrivals=arrivals, _expected=expected, busy_lock=(rnd.random() < 0.3))
 
 
 def oracle(sc, events, tr):
@@ -304,7 +343,7 @@ def run(rep, info, model, tier, seed):
         if dis and not rep.violations:
             rep.broken("correspondence C18: the model's sequence of read sizes differs from the implementation on %d single-burst scenarios; first %r" % (dis, first))
     rep.families.append(dict(name="C18:virtual-clock-bursts", cases=n, disagreements=dis,
-                             rule="real session loop + REAL SelectorBase.wait over a simulated kernel queue and TLS pending buffer on the virtual clock with poll=60 s: bursts around 16 KiB records and the 64 KiB receive buffer (+-1), 2-5000 small frames per burst, messages spanning records; every message and automatic pong must appear at the very tick its last byte became available"))
+                             rule="real session loop + REAL SelectorBase.wait over a simulated kernel queue and TLS pending buffer on the virtual clock with poll=60 s: bursts around 16 KiB records and the 64 KiB receive buffer (+-1), 2-5000 small frames per burst, messages spanning records; every message and automatic pong must appear at the very tick its last byte became available; in some runs the write lock looks taken to non-blocking probes (another thread is sending) while blocking acquisition succeeds"))
     # real sockets
     nreal = 2 if tier == "quick" else 12   # per transport; odd runs put the last byte of the burst in its own segment
     tmp = tempfile.mkdtemp(prefix="c18-", dir=core.BUILD)
